@@ -356,9 +356,37 @@ def classify_obj(obj: List[tuple]) -> Tuple[str, Optional[Sym]]:
         return '?', None
     if obj == [('id', 'port')]:
         return 'client', None
-    if txt.replace(' ', '') == 'lockAndData->value().get().dznPort':
+    ot = [tok_text(t) for t in obj]
+    if len(ot) >= 9 and obj[0][0] == 'id' and ot[1] in ('->', '.') and ot[2:] == ['value', '(', ')', '.', 'get', '(', ')', '.', 'dznPort']:
         return 'current-client', None
     return '?', None
+
+
+def selection_alias(stmts: List[List[tuple]]):
+    """The declaration through which an out-event lambda obtains the current selection:
+       auto x = <target>.CurrentClient();          -> (x, 'holder', target token)   the lock-and-data object lives in x
+       const auto& x / auto&& x = <target>.CurrentClient();  -> 'holder' (lifetime of the temporary is extended)
+       auto& x / auto x = *<target>.CurrentClient();         -> 'released' (the temporary, and with it the lock, is gone
+                                                                at the end of the declaration)
+    None when the first statement is not such a declaration."""
+    if not stmts:
+        return None
+    st = stmts[0]
+    if ('p', '=') not in st:
+        return None
+    eq = st.index(('p', '='))
+    decl = [tok_text(t) for t in st[:eq]]
+    if 'auto' not in decl or st[eq - 1][0] != 'id':
+        return None
+    var = tok_text(st[eq - 1])
+    rhs = st[eq + 1:]
+    deref = bool(rhs) and rhs[0] == ('p', '*')
+    if deref:
+        rhs = rhs[1:]
+    rtxt = [tok_text(t) for t in rhs]
+    if not (rhs and rhs[0][0] == 'hole' and rtxt[1:] == ['.', 'CurrentClient', '(', ')']):
+        return None
+    return var, ('released' if deref else 'holder'), rhs[0]
 
 
 def parse_member_path(toks: List[tuple]) -> Optional[MemberPath]:
